@@ -71,7 +71,26 @@ func c09Handle(c *core.Ctx) {
 		return
 	}
 	cons := fname(c09flt, "RateLimiter", "Handle")
-	acqs := callsTo(f, f.Body, false, "(*"+c09lib+".RateLimiter).AcquirePermission", "(*"+c09lib+".RateLimiter).AcquireNPermission")
+	fs := reach(f, 3)
+	x := c09indexOf(f.Pkg)
+	acqNames := []string{"(*" + c09lib + ".RateLimiter).AcquirePermission", "(*" + c09lib + ".RateLimiter).AcquireNPermission"}
+	var acqs []*ast.CallExpr
+	inHelper := 0
+	for _, g := range fs {
+		for _, call := range calls(g.Body, false) {
+			if c09calleeIs(g, call, acqNames...) {
+				if g == f {
+					acqs = append(acqs, call)
+				} else {
+					inHelper++
+				}
+			}
+		}
+	}
+	if len(acqs) == 0 && inHelper > 0 {
+		c.Undecide("R-C09-2", cons+"|single acquire site", pos(c, f.Body), "the limiter is charged inside a helper of Handle; the decision-table rule follows the verdict only within Handle itself")
+		return
+	}
 	if !c.RequireCount("R-C09-2", "limiter acquire call sites in Handle", len(acqs), 1) {
 		return
 	}
@@ -85,7 +104,7 @@ func c09Handle(c *core.Ctx) {
 		c.Errorf("R-C09-2: anchor: Results of the filter kind in %s not found", c09flt)
 		return
 	}
-	pm := parentMap(f.Body)
+	pm := c09parents(fs)
 	as, ok := pm[a].(*ast.AssignStmt)
 	if !ok || len(as.Lhs) != 2 || len(as.Rhs) != 1 {
 		c.Undecide("R-C09-2", cons+"|acquire results", pos(c, a), "the (permitted, wait) results of the acquire call are not assigned to two variables")
@@ -106,12 +125,11 @@ func c09Handle(c *core.Ctx) {
 	}
 
 	// the rule whose limiter is charged
-	asel, _ := ast.Unparen(a.Fun).(*ast.SelectorExpr)
 	var uObj types.Object
-	if asel != nil {
-		r := c09resolve(f, asel.X)
+	if _, recv := c09callee(f, a); recv != nil {
+		r := c09resolve(f, recv)
 		if c09fieldOf(f, r) == rlF {
-			uObj = c09obj(f, c09root(r))
+			uObj = x.canonRoot(f, r)
 		}
 	}
 	if uObj == nil {
@@ -119,9 +137,14 @@ func c09Handle(c *core.Ctx) {
 		return
 	}
 	var matches []*ast.CallExpr
-	for _, m := range callsTo(f, f.Body, false, "(*pkg/util/urlrule.URLRule).Match") {
-		if sel, ok := ast.Unparen(m.Fun).(*ast.SelectorExpr); ok && c09obj(f, c09root(sel.X)) == uObj {
-			matches = append(matches, m)
+	for _, g := range fs {
+		for _, m := range calls(g.Body, false) {
+			if !c09calleeIs(g, m, "(*pkg/util/urlrule.URLRule).Match") {
+				continue
+			}
+			if _, recv := c09callee(g, m); recv != nil && x.canonRoot(g, recv) == uObj {
+				matches = append(matches, m)
+			}
 		}
 	}
 
@@ -129,14 +152,17 @@ func c09Handle(c *core.Ctx) {
 	armed := map[*ast.CallExpr]bool{}
 	sleeps := map[*ast.CallExpr]bool{}
 	timers := map[types.Object]bool{}
-	if dObj != nil {
-		for _, call := range calls(f.Body, false) {
-			name := c09timeCall(f, call)
+	for _, g := range fs {
+		if dObj == nil {
+			break
+		}
+		for _, call := range calls(g.Body, false) {
+			name := c09timeCall(g, call)
 			if len(call.Args) != 1 {
 				continue
 			}
-			id, ok := ast.Unparen(call.Args[0]).(*ast.Ident)
-			if !ok || c09obj(f, id) != dObj {
+			// the imposed wait, also when it was handed to a helper as a parameter
+			if id, ok := c09resolve(g, call.Args[0]).(*ast.Ident); !ok || x.canon(c09obj(g, id)) != x.canon(dObj) {
 				continue
 			}
 			switch name {
@@ -194,7 +220,13 @@ func c09Handle(c *core.Ctx) {
 		}
 		return true, direct
 	}
-	lastComm := c09lastCommClauses(f.Body)
+	lastComm := map[ast.Stmt]bool{}
+	for _, g := range fs {
+		for k := range c09lastCommClauses(g.Body) {
+			lastComm[k] = true
+		}
+	}
+	named := c09resultsOf(f)
 
 	const (
 		acquired = "ev:acquired"
@@ -202,6 +234,7 @@ func c09Handle(c *core.Ctx) {
 		waited   = "ev:waited"
 	)
 	res := analyze(c, f, flow.Config{
+		Inline: inlineSamePkg(f),
 		OnBlock: func(st *flow.State, b *cfg.Block) {
 			if b.Kind == cfg.KindSelectAfterCase && lastComm[b.Stmt] {
 				st.Set(c09infeasible, flow.True)
@@ -231,6 +264,7 @@ func c09Handle(c *core.Ctx) {
 			}
 		},
 		OnNode: func(st *flow.State, n ast.Node) {
+			named.onNode(st, n)
 			ast.Inspect(n, func(x ast.Node) bool {
 				if _, isLit := x.(*ast.FuncLit); isLit {
 					return false
@@ -293,10 +327,8 @@ func c09Handle(c *core.Ctx) {
 			continue
 		}
 		val, known := "", false
-		if ex.Return != nil && len(ex.Return.Results) == 1 {
-			if tv, ok := f.Info.Types[ex.Return.Results[0]]; ok && tv.Value != nil && tv.Value.Kind() == constant.String {
-				val, known = constant.StringVal(tv.Value), true
-			}
+		if v, ok := named.constant(ex, 0); ok && v.Kind() == constant.String {
+			val, known = constant.StringVal(v), true
 		}
 		if !known {
 			c.Undecide("R-C09-2", cons+"|results are constants", pos(c, ex.At), "Handle returns a non-constant result")
@@ -377,30 +409,82 @@ func c09Handle(c *core.Ctx) {
 	}
 }
 
-// c09Reload: R-C09-3.
+// c09Reload: R-C09-3. The analysis runs on reload with its same-package helpers interpreted in
+// place (flow inlining) and all constructs are looked up over the reach of reload, so that the
+// loops, the comparison and the carry-over may live in helpers; variables are identified across
+// helper boundaries by c09index.canon; loops over the rules may be range / index / three-clause.
 func c09Reload(c *core.Ctx) {
-	f := fn(c, c09flt, "RateLimiter", "reload")
 	rlF := structField(c, c09flt, "URLRule", "rl")
 	urlsF := structField(c, c09flt, "Spec", "URLs")
 	specF := structField(c, c09flt, "RateLimiter", "spec")
 	pkg := c.Prog.Pkg(c09flt)
-	if f == nil || rlF == nil || urlsF == nil || specF == nil || pkg == nil {
+	if rlF == nil || urlsF == nil || specF == nil || pkg == nil {
 		return
 	}
-	cons := fname(c09flt, "RateLimiter", "reload")
+	filterT := namedType(c, c09flt, "RateLimiter")
+	if filterT == nil {
+		return
+	}
+	isFilterPtr := func(t types.Type) bool {
+		p, ok := t.(*types.Pointer)
+		return ok && types.Identical(p.Elem(), filterT)
+	}
+	// role: the method of the filter that takes the previous generation (a *RateLimiter parameter)
+	cands := funcsByRole(c, c09flt, func(g *flow.Func, fd *ast.FuncDecl) bool {
+		if fd.Recv == nil || c09recv(g) == nil || !isFilterPtr(c09recv(g).Type()) {
+			return false
+		}
+		for _, p := range c09params(g) {
+			if isFilterPtr(p.Type()) {
+				return true
+			}
+		}
+		return false
+	})
+	// helpers that receive the previous generation from the entry point are not entry points
+	x := c09indexOf(pkg)
+	var entries []*flow.Func
+	for _, g := range cands {
+		fo, _ := pkg.TypesInfo.Defs[g.Node.(*ast.FuncDecl).Name].(*types.Func)
+		calledByCand := false
+		for _, s := range x.sites[fo] {
+			for _, h := range cands {
+				if s.g.Body == h.Body && h != g {
+					calledByCand = true
+				}
+			}
+		}
+		if !calledByCand {
+			entries = append(entries, g)
+		}
+	}
+	if len(entries) != 1 {
+		if f := fnOpt(c, c09flt, "RateLimiter", "reload"); f != nil {
+			entries = []*flow.Func{f}
+		}
+	}
+	if len(entries) != 1 {
+		c.Errorf("R-C09-3: anchor: the filter method taking the previous generation was not found in %s (%d candidates)", c09flt, len(entries))
+		return
+	}
+	f := entries[0]
+	c.Count("functions_analysed", 1)
+	fd0 := f.Node.(*ast.FuncDecl)
+	cons := fname(c09flt, "RateLimiter", fd0.Name.Name)
 	recvObj := c09recv(f)
 	var prevObj types.Object
 	for _, p := range c09params(f) {
-		if ptr, ok := p.Type().(*types.Pointer); ok {
-			if n, ok := ptr.Elem().(*types.Named); ok && n.Obj().Pkg() == pkg.Types && n.Obj().Name() == "RateLimiter" {
-				prevObj = p
-			}
+		if isFilterPtr(p.Type()) {
+			prevObj = p
 		}
 	}
 	if recvObj == nil || prevObj == nil {
 		c.Errorf("R-C09-3: anchor: receiver / previous-generation parameter of %s not found", cons)
 		return
 	}
+	fs := reach(f, 3)
+	owner := c09owner(fs)
+
 	isNewCall := func(fl *flow.Func, e ast.Expr) bool {
 		call, ok := ast.Unparen(e).(*ast.CallExpr)
 		return ok && calleeIs(fl, call, c09lib+".New")
@@ -448,110 +532,213 @@ func c09Reload(c *core.Ctx) {
 		})
 	}
 
-	// outer loops: range over the new generation's URLs
-	outer := map[ast.Stmt]bool{}
-	ast.Inspect(f.Body, func(n ast.Node) bool {
-		if rs, ok := n.(*ast.RangeStmt); ok && rs.Value != nil {
-			x := c09resolve(f, rs.X)
-			if c09fieldOf(f, x) == urlsF && c09obj(f, c09root(x)) == recvObj {
-				outer[rs] = true
+	// loops over URL rules (any spelling), in reload or its helpers
+	var allLoops []*c09loop
+	loopOf := map[ast.Stmt]*c09loop{}
+	for _, g := range fs {
+		ast.Inspect(g.Body, func(n ast.Node) bool {
+			switch n.(type) {
+			case *ast.RangeStmt, *ast.ForStmt:
+				if l := c09loopOf(g, n.(ast.Stmt)); l != nil {
+					allLoops = append(allLoops, l)
+					loopOf[l.stmt] = l
+				}
 			}
+			return true
+		})
+	}
+	isURLsOf := func(l *c09loop, gen types.Object) bool {
+		return c09fieldOf(l.g, l.slice) == urlsF && x.canonRoot(l.g, l.slice) == gen
+	}
+	var outer []*c09loop
+	for _, l := range allLoops {
+		if isURLsOf(l, recvObj) {
+			outer = append(outer, l)
 		}
-		return true
-	})
+	}
 	if !c.RequireCount("R-C09-3", "loops over the new generation's URL rules in reload", len(outer), 1) {
 		return
+	}
+	// isNewRule: e denotes the current rule of a loop over the new generation
+	isNewRule := func(g *flow.Func, e ast.Expr) bool {
+		for _, l := range outer {
+			if l.isElemExpr(g, x, e) {
+				return true
+			}
+		}
+		return false
 	}
 
 	// carry-over stores X.rl = Y.rl
 	type carry struct {
+		g        *flow.Func
 		as       *ast.AssignStmt
 		rhs      ast.Expr
-		to, from types.Object
+		to, from types.Object // canonical
 	}
 	var carries []*carry
 	carryAt := map[ast.Node]*carry{}
 	createStore := map[ast.Node]bool{}
-	ast.Inspect(f.Body, func(n ast.Node) bool {
-		as, ok := n.(*ast.AssignStmt)
-		if !ok || len(as.Lhs) != len(as.Rhs) {
-			return true
-		}
-		for _, i := range storesRL(f, as) {
-			r := c09resolve(f, as.Rhs[i])
-			switch {
-			case c09fieldOf(f, r) == rlF:
-				cr := &carry{as: as, rhs: as.Rhs[i], to: c09obj(f, c09root(as.Lhs[i])), from: c09obj(f, c09root(r))}
-				carries = append(carries, cr)
-				carryAt[as] = cr
-			case isNewCall(f, r):
-				createStore[as] = true
+	for _, g := range fs {
+		ast.Inspect(g.Body, func(n ast.Node) bool {
+			as, ok := n.(*ast.AssignStmt)
+			if !ok || len(as.Lhs) != len(as.Rhs) {
+				return true
 			}
-		}
-		return true
-	})
+			for _, i := range storesRL(g, as) {
+				r := c09resolve(g, as.Rhs[i])
+				switch {
+				case c09fieldOf(g, r) == rlF:
+					cr := &carry{g: g, as: as, rhs: as.Rhs[i], to: x.canonRoot(g, as.Lhs[i]), from: x.canonRoot(g, r)}
+					carries = append(carries, cr)
+					carryAt[as] = cr
+				case isNewCall(g, r):
+					createStore[as] = true
+				default:
+					// X.rl = h(..) with h a creating helper of the package (a constructor returning the limiter)
+					if call, ok := r.(*ast.CallExpr); ok {
+						if fo, ok := g.Callee(call).(*types.Func); ok && creators[fo] {
+							createStore[as] = true
+						}
+					}
+				}
+			}
+			return true
+		})
+	}
 	if len(carries) == 0 {
 		c.Violate("R-C09-3", cons+"|unchanged rule keeps its limiter state", pos(c, f.Body), "reload never takes a limiter over from the previous generation: every reload resets the accumulated reservations, so a burst straddling a reload is admitted twice")
 		return
 	}
 	// guards
 	type pairCall struct {
+		g    *flow.Func
 		call *ast.CallExpr
 		a, b types.Object
 	}
 	var deepEq []pairCall
-	for _, call := range callsTo(f, f.Body, false, "(*pkg/util/urlrule.URLRule).DeepEqual") {
-		if sel, ok := ast.Unparen(call.Fun).(*ast.SelectorExpr); ok && len(call.Args) == 1 {
-			deepEq = append(deepEq, pairCall{call, c09obj(f, c09root(sel.X)), c09obj(f, c09root(c09resolve(f, call.Args[0])))})
-		}
-	}
-	var samePol []*ast.CallExpr
-	for _, call := range calls(f.Body, false) {
-		fo, ok := f.Callee(call).(*types.Func)
-		if !ok || fo.Pkg() != pkg.Types {
-			continue
-		}
-		sig := fo.Type().(*types.Signature)
-		if sig.Results().Len() != 1 {
-			continue
-		}
-		if b, ok := sig.Results().At(0).Type().Underlying().(*types.Basic); !ok || b.Kind() != types.Bool {
-			continue
-		}
-		cur, prev := false, false
-		for _, arg := range call.Args {
-			r := c09resolve(f, arg)
-			if c09fieldOf(f, r) == specF {
-				switch c09obj(f, c09root(r)) {
-				case recvObj:
-					cur = true
-				case prevObj:
-					prev = true
-				}
+	for _, g := range fs {
+		for _, call := range calls(g.Body, false) {
+			if !c09calleeIs(g, call, "(*pkg/util/urlrule.URLRule).DeepEqual") || len(call.Args) != 1 {
+				continue
+			}
+			if _, recv := c09callee(g, call); recv != nil {
+				deepEq = append(deepEq, pairCall{g, call, x.canonRoot(g, recv), x.canonRoot(g, call.Args[0])})
 			}
 		}
-		if cur && prev {
-			samePol = append(samePol, call)
+	}
+	type gcall struct {
+		g    *flow.Func
+		call *ast.CallExpr
+	}
+	var samePol []gcall
+	var opaque []types.Object
+	for _, g := range fs {
+		for _, call := range calls(g.Body, false) {
+			fo, ok := g.Callee(call).(*types.Func)
+			if !ok || fo.Pkg() != pkg.Types {
+				continue
+			}
+			sig := fo.Type().(*types.Signature)
+			if sig.Results().Len() != 1 {
+				continue
+			}
+			if b, ok := sig.Results().At(0).Type().Underlying().(*types.Basic); !ok || b.Kind() != types.Bool {
+				continue
+			}
+			cur, prev := false, false
+			for _, arg := range call.Args {
+				r := c09resolve(g, arg)
+				if c09fieldOf(g, r) == specF {
+					switch x.canonRoot(g, r) {
+					case recvObj:
+						cur = true
+					case prevObj:
+						prev = true
+					}
+				}
+			}
+			if cur && prev {
+				samePol = append(samePol, gcall{g, call})
+				opaque = append(opaque, fo)
+			}
+		}
+	}
+	for fo := range creators {
+		opaque = append(opaque, fo)
+	}
+	// Only helpers that hold a construct of this rule are interpreted in place (the lookup of the
+	// inheritable rule, the carry-over block); the others stay opaque calls. (Interpreting all of
+	// them also works around an engine defect: the write-back of parameter facts at the exit of an
+	// inlined call merges the parameter into the dependencies of the caller's own fact, which is
+	// then killed at the next entry of any helper taking the same argument.)
+	interesting := map[*ast.BlockStmt]bool{}
+	for changed := true; changed; {
+		changed = false
+		for _, g := range fs {
+			if g == f || interesting[g.Body] {
+				continue
+			}
+			hit := false
+			ast.Inspect(g.Body, func(n ast.Node) bool {
+				switch t := n.(type) {
+				case *ast.AssignStmt:
+					if carryAt[t] != nil || createStore[t] {
+						hit = true
+					}
+				case *ast.CallExpr:
+					if c09calleeIs(g, t, "(*pkg/util/urlrule.URLRule).DeepEqual") {
+						hit = true
+					}
+					for _, sp := range samePol {
+						if sp.call == t {
+							hit = true
+						}
+					}
+					if fo, ok := g.Callee(t).(*types.Func); ok && fo.Pkg() == pkg.Types && !creators[fo] {
+						if fd := declOf(pkg, fo); fd != nil && interesting[fd.Body] {
+							hit = true
+						}
+					}
+				case *ast.RangeStmt, *ast.ForStmt:
+					if l := loopOf[t.(ast.Stmt)]; l != nil && c09fieldOf(l.g, l.slice) == urlsF {
+						hit = true
+					}
+				}
+				return !hit
+			})
+			if hit {
+				interesting[g.Body] = true
+				changed = true
+			}
+		}
+	}
+	for _, g := range fs {
+		if g != f && !interesting[g.Body] {
+			if fo, ok := pkg.TypesInfo.Defs[g.Node.(*ast.FuncDecl).Name].(*types.Func); ok {
+				opaque = append(opaque, fo)
+			}
 		}
 	}
 	inner := map[ast.Stmt]*carry{}
 	for _, cr := range carries {
-		for _, l := range enclosingLoops(f.Body, cr.as) {
-			if rs, ok := l.(*ast.RangeStmt); ok && rs.Value != nil {
-				if id, ok := rs.Value.(*ast.Ident); ok && c09obj(f, id) == cr.from {
-					inner[rs] = cr
-				}
+		for _, l := range allLoops {
+			if l.elem != nil && cr.from != nil && x.canon(l.elem) == cr.from {
+				inner[l.stmt] = cr
 			}
 		}
 	}
 	guardsHold := func(st *flow.State, cr *carry) (deq, same bool) {
 		for _, d := range deepEq {
-			if ((d.a == cr.to && d.b == cr.from) || (d.a == cr.from && d.b == cr.to)) && st.Is(f.CallKey(d.call), flow.True) {
+			if d.a == nil || d.b == nil {
+				continue
+			}
+			if ((d.a == cr.to && d.b == cr.from) || (d.a == cr.from && d.b == cr.to)) && st.Is(d.g.CallKey(d.call), flow.True) {
 				deq = true
 			}
 		}
 		for _, s := range samePol {
-			if st.Is(f.CallKey(s), flow.True) {
+			if st.Is(s.g.CallKey(s.call), flow.True) {
 				same = true
 			}
 		}
@@ -571,55 +758,49 @@ func c09Reload(c *core.Ctx) {
 	initers := c09reach(pkg, func(fl *flow.Func) bool {
 		return len(callsTo(fl, fl.Body, true, initFull)) > 0
 	})
-	outerVar := map[types.Object]bool{}
 	limiterLoop := map[ast.Stmt]bool{}
 	auxIdx := map[ast.Stmt]int{}
-	for l := range outer {
-		rs := l.(*ast.RangeStmt)
-		if id, ok := rs.Value.(*ast.Ident); ok {
-			outerVar[c09obj(f, id)] = true
-		}
+	isOuter := map[ast.Stmt]*c09loop{}
+	for _, l := range outer {
+		isOuter[l.stmt] = l
 		for _, cr := range carries {
-			if contains(rs, cr.as) {
-				limiterLoop[l] = true
+			if contains(l.stmt, cr.as) {
+				limiterLoop[l.stmt] = true
 			}
 		}
 		for n := range createStore {
-			if contains(rs, n) {
-				limiterLoop[l] = true
+			if contains(l.stmt, n) {
+				limiterLoop[l.stmt] = true
 			}
 		}
-		for _, call := range calls(rs.Body, false) {
-			if fo, ok := f.Callee(call).(*types.Func); ok && creators[fo] {
-				limiterLoop[l] = true
+		for _, call := range calls(l.body, false) {
+			if fo, ok := l.g.Callee(call).(*types.Func); ok && (creators[fo] || writers[fo]) {
+				limiterLoop[l.stmt] = true
 			}
 		}
-		if !limiterLoop[l] {
-			auxIdx[l] = len(auxIdx)
+		if !limiterLoop[l.stmt] {
+			auxIdx[l.stmt] = len(auxIdx)
 		}
 	}
 	initsRule := func(call *ast.CallExpr, callee types.Object) bool {
 		fo, ok := callee.(*types.Func)
-		if !ok {
+		g := owner[call]
+		if !ok || g == nil {
 			return false
 		}
-		onRule := func(e ast.Expr) bool {
-			id := c09root(c09resolve(f, e))
-			return id != nil && outerVar[c09obj(f, id)]
-		}
-		if calleeIs(f, call, initFull) {
-			sel, ok := ast.Unparen(call.Fun).(*ast.SelectorExpr)
-			return ok && onRule(sel.X)
+		if c09calleeIs(g, call, initFull) {
+			_, recv := c09callee(g, call)
+			return recv != nil && isNewRule(g, recv)
 		}
 		if !initers[fo] {
 			return false
 		}
 		for _, a := range call.Args {
-			if onRule(a) {
+			if isNewRule(g, a) {
 				return true
 			}
 		}
-		if sel, ok := ast.Unparen(call.Fun).(*ast.SelectorExpr); ok && onRule(sel.X) {
+		if sel, ok := ast.Unparen(call.Fun).(*ast.SelectorExpr); ok && isNewRule(g, sel.X) {
 			return true
 		}
 		return false
@@ -631,6 +812,7 @@ func c09Reload(c *core.Ctx) {
 	}
 	var limiterEnds []iterEnd
 	auxBad := map[int]bool{}
+
 	type bad struct {
 		st  *flow.State
 		at  ast.Node
@@ -638,7 +820,16 @@ func c09Reload(c *core.Ctx) {
 	}
 	var badGuard, badLive, badAfter, badEnd, badKeep *bad
 	nCarry, nEnds, nInnerEnds := 0, 0, 0
+	keepCheck := func(st *flow.State, at ast.Node) {
+		for _, cr := range carries {
+			deq, same := guardsHold(st, cr)
+			if deq && same && !st.Is(carried, flow.True) && !st.Is(cr.g.NilKey(cr.rhs), flow.True) && badKeep == nil {
+				badKeep = &bad{st, at, "the previous generation has an identical URL rule with an identical policy, yet its limiter is not taken over: reloading with an unchanged rule loses the accumulated reservations"}
+			}
+		}
+	}
 	res := analyze(c, f, flow.Config{
+		Inline: inlineSamePkg(f, opaque...),
 		Pure: func(call *ast.CallExpr, callee types.Object) bool {
 			fo, ok := callee.(*types.Func)
 			if !ok {
@@ -653,19 +844,20 @@ func c09Reload(c *core.Ctx) {
 			return true // code of other packages cannot store the unexported field
 		},
 		OnBlock: func(st *flow.State, b *cfg.Block) {
-			if outer[b.Stmt] {
-				switch b.Kind {
-				case cfg.KindRangeBody:
+			if l := isOuter[b.Stmt]; l != nil {
+				i, isAux := auxIdx[b.Stmt]
+				switch {
+				case l.isBody(b):
 					st.Set(inBody, flow.True)
 					st.Set(carried, flow.False)
 					st.Set(created, flow.False)
 					st.Set(inited, flow.False)
-				case cfg.KindRangeDone:
-					if i, isAux := auxIdx[b.Stmt]; isAux {
+				case l.isDone(b):
+					if isAux {
 						st.Set(sprintf("ev:auxdone:%d", i), flow.True)
 					}
-				case cfg.KindRangeLoop:
-					if i, isAux := auxIdx[b.Stmt]; isAux {
+				case l.isIterEnd(b):
+					if isAux {
 						if st.Is(inBody, flow.True) && !st.Is(inited, flow.True) {
 							auxBad[i] = true
 						}
@@ -675,12 +867,12 @@ func c09Reload(c *core.Ctx) {
 					}
 					if st.Is(inBody, flow.True) {
 						limiterEnds = append(limiterEnds, iterEnd{st, b.Stmt, st.Is(inited, flow.True)})
-					}
-					if st.Is(inBody, flow.True) {
 						nEnds++
 						if !st.Is(carried, flow.True) && !st.Is(created, flow.True) && badEnd == nil {
 							badEnd = &bad{st, b.Stmt, "an iteration over the new generation's URL rules ends with the rule having neither a carried-over nor a new limiter: Handle dereferences a nil limiter for that rule"}
 						}
+						// the rule was found unchanged (e.g. by a lookup helper) but got a new limiter
+						keepCheck(st, b.Stmt)
 					}
 					st.Set(inBody, flow.Unknown)
 					st.Set(carried, flow.Unknown)
@@ -689,16 +881,14 @@ func c09Reload(c *core.Ctx) {
 				}
 			}
 			if cr := inner[b.Stmt]; cr != nil {
-				switch b.Kind {
-				case cfg.KindRangeBody:
+				l := loopOf[b.Stmt]
+				switch {
+				case l.isBody(b):
 					st.Set(inInner, flow.True)
-				case cfg.KindRangeLoop:
+				case l.isIterEnd(b):
 					if st.Is(inInner, flow.True) {
 						nInnerEnds++
-						deq, same := guardsHold(st, cr)
-						if deq && same && !st.Is(carried, flow.True) && !st.Is(f.NilKey(cr.rhs), flow.True) && badKeep == nil {
-							badKeep = &bad{st, b.Stmt, "the previous generation has an identical URL rule with an identical policy, yet its limiter is not taken over: reloading with an unchanged rule loses the accumulated reservations"}
-						}
+						keepCheck(st, b.Stmt)
 					}
 					st.Set(inInner, flow.Unknown)
 				}
@@ -738,7 +928,7 @@ func c09Reload(c *core.Ctx) {
 					badGuard = &bad{st, n, "a limiter is carried over onto a rule that was already given a new limiter in this iteration"}
 				}
 			}
-			if nilStore != nil && !st.Is(f.NilKey(cr.rhs), flow.False) && badLive == nil {
+			if nilStore != nil && !st.Is(cr.g.NilKey(cr.rhs), flow.False) && badLive == nil {
 				badLive = &bad{st, n, "reload moves the previous rule's limiter to the new rule and clears the source (" + pos(c, nilStore) + " stores nil), but the carry-over is not guarded by a test that the source limiter is still there: a second URL rule of the new spec that equals the same previous rule (the same rule listed twice) is handed a nil limiter and the reload panics with a nil dereference"}
 			}
 			st.Set(carried, flow.True)
@@ -780,8 +970,9 @@ func c09Reload(c *core.Ctx) {
 		ok := badEnd == nil
 		whyEnd := why(badEnd)
 		var wEnd []string
-		for l := range limiterLoop {
-			if ex := breaksOut(f, l, labelOf(f.Body, l)); len(ex) > 0 && ok {
+		for s := range limiterLoop {
+			l := isOuter[s]
+			if ex := breaksOut(l.g, s, labelOf(l.g.Body, s)); len(ex) > 0 && ok {
 				ok = false
 				whyEnd = "the loop over the new generation's URL rules can be left early (" + pos(c, ex[0]) + "): the remaining rules get no limiter"
 			}
@@ -816,12 +1007,15 @@ func c09Reload(c *core.Ctx) {
 			"an iteration over the new generation's URL rules ends without URLRule.Init having run for the rule on this path: its regular expression is never compiled and its id never set, so after the reload a `regex` rule matches nothing and its requests bypass the limiter altogether", wInit...)
 	}
 	if len(inner) == 0 {
-		c.Undecide("R-C09-3", cons+"|unchanged rule keeps its limiter state", pos(c, first), "the carry-over store is not inside a loop over the previous generation's rules")
+		c.Undecide("R-C09-3", cons+"|unchanged rule keeps its limiter state", pos(c, first), "the carry-over store is not fed from a loop over the previous generation's rules that the rule can identify")
 		return
 	}
 	if c.RequireCount("R-C09-3", "abstract iteration ends of the previous-generation loop", nInnerEnds, 1) {
-		c.Check(badKeep == nil, "R-C09-3", cons+"|unchanged rule keeps its limiter state", at(badKeep, first),
-			sprintf("%d abstract iteration end(s) of the loop over previous rules: none with DeepEqual ∧ same policy ∧ live limiter but no carry-over", nInnerEnds), why(badKeep), w(badKeep)...)
+		detail := sprintf("%d abstract iteration end(s) of the loop over previous rules and %d of the loop over new rules: none with DeepEqual ∧ same policy ∧ live limiter but no carry-over", nInnerEnds, nEnds)
+		if len(res.Inlined) > 0 {
+			detail += "; helpers interpreted in place: " + strings.Join(res.Inlined, ", ")
+		}
+		c.Check(badKeep == nil, "R-C09-3", cons+"|unchanged rule keeps its limiter state", at(badKeep, first), detail, why(badKeep), w(badKeep)...)
 	}
 }
 
